@@ -137,6 +137,9 @@ ADMISSION_SCENARIOS = [
     dict(limit=2, steps=[dict(dir='out'), dict(dir='in'), dict(dir='in'), dict(dir='in', affinity='allowed')]),
     dict(limit=0, steps=[dict(dir='in'), dict(dir='in', affinity='allowed'), dict(dir='out'), dict(dir='in', affinity='never')]),
     dict(limit=None, steps=[dict(dir='in'), dict(dir='in'), dict(dir='in', affinity='never'), dict(dir='in')]),
+    # arrivals whose acknowledgement handshake stalls until the connect timeout cancels it: they are never established, so they must not count
+    dict(limit=1, connect_timeout_ms=400, steps=[dict(dir='in_stalled'), dict(dir='in_stalled'), dict(dir='in'), dict(dir='in')]),
+    dict(limit=2, connect_timeout_ms=400, steps=[dict(dir='in'), dict(dir='in_stalled'), dict(dir='in'), dict(dir='in')]),
     # every affinity BELOW the limit, then at it
     dict(limit=3, steps=[dict(dir='in', affinity='never'), dict(dir='in'), dict(dir='in', affinity='never'), dict(dir='in', affinity='high'), dict(dir='in'), dict(dir='in'), dict(dir='in', affinity='never'), dict(dir='in', affinity='allowed')]),
 ]
@@ -147,6 +150,8 @@ def admission_expected(limit, steps):
     for st in steps:
         if st['dir'] == 'out':
             ok = True
+        elif st['dir'] == 'in_stalled':
+            ok = False      # never completes the handshake: not established, the dialer's connect fails
         else:
             aff = st.get('affinity')
             ok = False if aff == 'never' else True if aff in ('high', 'allowed') else (limit is None or est < limit)
